@@ -269,7 +269,7 @@ impl Prop for C14 {
         80
     }
     fn cases(&self, t: Tier) -> usize {
-        t.pick(100_000, 3_000_000)
+        t.pick(400_000, 3_000_000)
     }
     fn generate(&self, t: &mut Tape) -> Case {
         let a = gen_uval(t);
